@@ -528,6 +528,22 @@ fn compute_fold<'query, AdapterT: Adapter<'query> + 'query>(
                         && tagged_fold_count.fold_eid == fold.eid
                         && tagged_fold_count.kind == FoldSpecificFieldKind::Count
                 })
+            }) || parent_component.folds.values().any(|other_fold| {
+                // The tagged count may also be used by a later @fold of the same component:
+                // imported into it (for use at any depth inside), or in a filter on its count.
+                let is_this_fold_count = |field_ref: &FieldRef| {
+                    matches!(
+                        field_ref,
+                        FieldRef::FoldSpecificField(tagged_fold_count)
+                            if tagged_fold_count.fold_root_vid == fold.to_vid
+                                && tagged_fold_count.fold_eid == fold.eid
+                                && tagged_fold_count.kind == FoldSpecificFieldKind::Count
+                    )
+                };
+                other_fold.imported_tags.iter().any(is_this_fold_count)
+                    || other_fold.post_filters.iter().any(|filter| {
+                        matches!(filter.right(), Some(Argument::Tag(field_ref)) if is_this_fold_count(field_ref))
+                    })
             });
 
             if no_outputs_in_fold && !has_output_on_fold_count && !has_tag_on_fold_count {
